@@ -8,3 +8,5 @@ import GstVerif.Db.Model
 import GstVerif.Db.Driver
 import GstVerif.LinAlg.Mat
 import GstVerif.LinAlg.Driver
+import GstVerif.Krig.Model
+import GstVerif.Krig.Driver
